@@ -27,6 +27,8 @@ package criteria_mixing
 //@   ensures [components] result.c1 != nil && result.c2 != nil && fresh(result) && fresh(result.result)
 //@   ensures [formula] forall a string :: a in result.c1 ==> a in result.c2 && a in result.result && result.result[a] == mixed(props.MixingRatio, result.c1[a], result.c2[a])
 //@   ensures [only] forall a string :: a in result.result ==> a in result.c1
+//@   ensures [components_are_the_two_criteria_of_the_given_alternatives_rescaled] model.isRescaledOf(result.c1, c.c1, allAlternatives, targetValuesRange)
+//@             && model.isRescaledOf(result.c2, c.c2, allAlternatives, targetValuesRange)
 //@   loop 1 invariant [ctx] fresh(resultValues) && resultValues != nil && resultValues != c1Values && resultValues != c2Values
 //@   loop 1 invariant [formula] forall a string :: seen(a) ==> a in c2Values && a in resultValues && resultValues[a] == mixed(props.MixingRatio, c1Values[a], c2Values[a])
 //@   loop 1 invariant [only] forall a string :: a in resultValues ==> seen(a)
@@ -54,6 +56,9 @@ package criteria_mixing
 //@ pred mixingActs(b model.Bias, out *model.DecisionMakingParams, in *model.DecisionMakingParams) = len(in.Criteria) < 2 ? out == in : (len(out.Criteria) == len(in.Criteria) + 1 && forall k int :: 0 <= k && k < len(in.Criteria) ==> out.Criteria[k] == in.Criteria[k])
 //@ func (*CriteriaMixing).Apply
 //@   refines model.Bias.Apply with actsOn=mixingActs
+//@   returnhint [mixed_from_the_current_values_of_all_alternatives] len(current.Criteria) < 2 || (model.isRescaledOf(mixResult.c1, c2m.c1, addr(allAlternatives), targetValRange)
+//@             && model.isRescaledOf(mixResult.c2, c2m.c2, addr(allAlternatives), targetValRange)
+//@             && len(allAlternatives) == len(current.ConsideredAlternatives) + len(current.NotConsideredAlternatives))
 //@   property C18 C07 C01 C09
 //@   requires model.coherent(*listener, *current) && model.coherent(*listener, *original) && len(original.Criteria) > 0
 //@   requires forall i int, j int :: 0 <= i && i < j && j < len(current.ConsideredAlternatives) ==> current.ConsideredAlternatives[i].Id != current.ConsideredAlternatives[j].Id
